@@ -290,6 +290,17 @@ def do_replay(spec, path, quiet=False):
     if out.violations:
         v = out.violations[0]
         print("  %s: %s" % (signature(v), v["message"]))
+        tr = getattr(out, "trace", None)
+        if isinstance(tr, dict):
+            if tr.get("history"):
+                print("  history: " + " ; ".join(map(str, tr["history"])))
+            if tr.get("faults_fired"):
+                print("  faults fired: %s" % tr["faults_fired"])
+            if tr.get("events"):
+                ev = tr["events"]
+                print("  kernel event log (step virtual-time kind task what), last %d of %d events:" % (min(40, len(ev)), tr.get("events_total", len(ev))))
+                for line in ev[-40:]:
+                    print("    " + line)
         same = signature(v) == body.get("sig")
         print("  same violation class as recorded: %s; identical digest: %s"
               % (same, out.digest() == body.get("digest")))
